@@ -62,7 +62,15 @@ class An:
         self.interp.keep = set(prog.nodes[i]["path"] for i in seen if prog.nodes[i]["local"])
 
     def slicer(self, body):
-        return self.interp.slicer(body.path) if body.path in self.prog.bodies else Slicer(body)
+        if self.prog.bodies.get(body.path) is body:
+            return self.interp.slicer(body.path)
+        # a derived body (CFG-inlined variant of a crate function, promoted / const body): cached by identity
+        if not hasattr(self, "_xsl"):
+            self._xsl = {}
+        k = id(body)
+        if k not in self._xsl:
+            self._xsl[k] = (body, Slicer(body))
+        return self._xsl[k][1]
 
     def simp(self, e):
         return self.interp.simplify(e)
@@ -207,6 +215,30 @@ def blocks_only_via(body, edge):
     live = body.live_blocks()
     without = body.reachable(0, without_edge=edge)
     return set(live) - set(without)
+
+
+def dispatcher_paths(prog):
+    """Crate functions that call a version-specific parser directly."""
+    names = set(VERSION_PARSERS.values())
+    out = set()
+    for p, b in prog.bodies.items():
+        if any(c is not None and c.npath in names for _, _, c in b.calls()):
+            out.add(p)
+    return out
+
+
+def role_body(prog, path):
+    """The body of an entry point / dispatcher with its private helpers inlined at CFG level (mir.inline_calls), so
+    that splitting such a function into private pieces does not change what the CFG rules see. Never inlined:
+    public functions, the dispatcher itself (rules refer to its call), derived code, very large bodies."""
+    if not hasattr(prog, "_disp_paths"):
+        prog._disp_paths = dispatcher_paths(prog)
+
+    def pred(p):
+        cb = prog.bodies.get(p)
+        return cb is not None and not cb.j.get("pub") and p not in prog._disp_paths and p not in VERSION_PARSERS.values() \
+            and not cb.derived and cb.nblocks <= 150
+    return prog.inlined_body(path, pred, key="role")
 
 
 def block_aggs(body, blocks=None):
